@@ -327,7 +327,21 @@ func needQuoted(a Atom) bool {
 }
 
 func quote(s string) string {
-	return fmt.Sprintf("'%s'", quotedAtomEscapePattern.ReplaceAllStringFunc(s, quotedIdentEscape))
+	var sb strings.Builder
+	_ = sb.WriteByte('\'')
+	for _, r := range s {
+		switch c := string(r); {
+		case quotedAtomEscapePattern.MatchString(c):
+			_, _ = sb.WriteString(quotedIdentEscape(c))
+		case !isSingleQuotedCharacter(r):
+			// The reader doesn't take it as it is in a quoted atom.
+			_, _ = fmt.Fprintf(&sb, `\x%x\`, r)
+		default:
+			_, _ = sb.WriteString(c)
+		}
+	}
+	_ = sb.WriteByte('\'')
+	return sb.String()
 }
 
 func quotedIdentEscape(s string) string {
